@@ -670,7 +670,6 @@ def native_check(w):
     if entry == "dump":
         target, enc, errors = w["target"], w.get("encoding"), w.get("errors", "strict")
         if w.get("nonascii"):
-            # stateless codecs only (no BOM): encoding piece by piece == encoding the whole text
             tail = "\udc80" if w["nonascii"] == "surrogate" else "é€"
             pieces = [p + tail if p else p for p in pieces]
         s = E.TemplateStream(iter(list(pieces)))
@@ -732,9 +731,15 @@ def native_check(w):
                     return f"dump(path) closed the file it opened {sp.closed_calls} times (writes after close: {sp.writes_after_close})"
                 data = real_open(path, "rb").read()
                 if raised is None:
-                    want = "".join(pieces).encode(enc or "utf-8", errors)
-                    if data != want:
-                        return f"file holds {data!r}, expected {want!r}"
+                    # the statement: the dumped file holds the same TEXT (as far as the codec/error mode keeps it)
+                    codec = enc or "utf-8"
+                    want_text = "".join(pieces).encode(codec, errors).decode(codec)
+                    try:
+                        got_text = data.decode(codec)
+                    except UnicodeError as ex:
+                        return f"file holds {data!r}, which does not decode as {codec}: {ex}"
+                    if got_text != want_text:
+                        return f"dump(path, {codec!r}) wrote a file that decodes to {got_text!r}, the rendered text is {want_text!r}"
                 else:
                     try:
                         "".join(pieces).encode(enc or "utf-8", errors)
@@ -755,21 +760,31 @@ def native_check(w):
             return "dump closed a file object it did not open"
         if raised is not None:
             try:
-                [p.encode(enc, errors) for p in pieces]
-                return f"dump raised {raised!r}"
+                "".join(pieces).encode(enc, errors)
+                return f"dump raised {raised!r} although the text is encodable"
             except (UnicodeError, LookupError):
                 return None
         got = f.items
         if got[:1] != ["<prior>"]:
             return "dump disturbed what the file already held"
         got = got[1:]
+        if enc:
+            if not all(isinstance(x, bytes) for x in got):
+                return f"dump(file, {enc!r}) wrote non-bytes items {got!r}"
+            want_text = "".join(pieces).encode(enc, errors).decode(enc)
+            try:
+                got_text = b"".join(got).decode(enc)
+            except UnicodeError as ex:
+                return f"dump wrote {got!r}, which does not decode as {enc}: {ex}"
+            return None if got_text == want_text else (
+                f"dump(file, {enc!r}) wrote bytes that decode to {got_text!r}, the rendered text is {want_text!r}")
         items = list(pieces)
         if w.get("buffered"):
             s2 = E.TemplateStream(iter(list(pieces)))
             s2.enable_buffering(size)
             items = list(itertools.islice(s2, len(pieces) + 2))  # what iterating the buffered stream gives
-        want = [p.encode(enc, errors) for p in items] if enc else list(items)
-        return None if got == want else f"dump wrote {got!r}, expected {want!r} (in order)"
+        want = list(items)
+        return None if got == want else f"dump wrote {got!r}, expected the items {want!r} (in order)"
 
     raise ValueError(f"unknown entry {entry!r}")
 
@@ -1565,6 +1580,28 @@ from pyvc.smt import str2obj  # noqa: E402
 
 ENC = z3.Function("str_encode", S_, Obj, Obj, Obj)  # x.encode(encoding, errors)
 ArrO = z3.ArraySort(I_, Obj)
+# dependency spec of the codecs (str.encode / bytes.decode), for the decoded view of a binary file:
+FILE_TEXT = z3.Function("file_text", ArrO, I_, Obj, S_)     # b"".join(items[0:n]).decode(encoding)
+DEC_ITEM = z3.Function("decode_item", Obj, Obj, S_)         # item.decode(encoding)
+STATELESS = z3.Function("stateless_codec", Obj, z3.BoolSort())
+STATEFUL_CODECS = ("utf-16", "utf-32", "utf-8-sig")
+STATELESS_CODECS = ("utf-8", "latin-1", "ascii", "utf-16-le")
+
+
+def RT(x, e, r):
+    """x.encode(e, r).decode(e): what the codec/error mode keeps of a text"""
+    return DEC_ITEM(ENC(x, e, r), e)
+
+
+def codec_facts_append(arr, n, w, e):
+    """decoding is a homomorphism on the outputs of a STATELESS codec (no BOM, no shift state):
+    (B + w).decode(e) == B.decode(e) + w.decode(e)"""
+    return z3.Implies(STATELESS(e), FILE_TEXT(z3.Store(arr, n, w), n + 1, e) == z3.Concat(FILE_TEXT(arr, n, e), DEC_ITEM(w, e)))
+
+
+def codec_facts_text(a, b, e, r):
+    """... and so is encoding: (a + b).encode(e, r) decodes to a.encode(e, r).decode(e) + b.encode(e, r).decode(e)"""
+    return z3.Implies(STATELESS(e), RT(z3.Concat(a, b), e, r) == z3.Concat(RT(a, e, r), RT(b, e, r)))
 
 
 def seq_obj(seqv, j):
@@ -1588,13 +1625,26 @@ class Dump(C10VC):
     def native_family(self):
         for pat in PATTERNS:
             for enc, errors in ((None, "strict"), (None, "replace"), ("utf-8", "strict"), ("ascii", "replace"),
-                                ("utf-16-le", "strict"), ("ascii", "strict")):
+                                ("utf-16-le", "strict"), ("ascii", "strict"), ("latin-1", "replace")):
                 if (enc is not None) != self.with_encoding:
                     continue
                 for buffered in (False, True):
                     for na in (False, True, "surrogate"):
                         yield {"entry": "dump", "pattern": pat, "target": self.kind, "encoding": enc, "errors": errors,
                                "buffered": buffered, "size": 2, "nonascii": na}
+        if self.with_encoding:
+            # stateful codecs last: a refutation whose first failing input is one of these is the known finding
+            for pat in ("11", "101"):
+                for enc in STATEFUL_CODECS:
+                    for buffered in (False, True):
+                        yield {"entry": "dump", "pattern": pat, "target": self.kind, "encoding": enc, "errors": "strict",
+                               "buffered": buffered, "size": 2, "nonascii": False}
+
+    def finding_key(self, res):
+        w = res.witness or {}
+        if w.get("encoding") in STATEFUL_CODECS:
+            return "stateful-encoding"
+        return str(w.get("encoding"))
 
     # ---- file model ------------------------------------------------------------------------
     def content(self, st, f):
@@ -1619,9 +1669,13 @@ class Dump(C10VC):
 
         def open_spec(I_, st, args, kwargs, node):
             out = [fail(st, "open", args, node)]
-            cont = st.alloc(HList(arr=z3.Const(fresh_name("newfile"), ArrO), n=z3.IntVal(0), k="obj"))
+            arr0 = z3.Const(fresh_name("newfile"), ArrO)
+            cont = st.alloc(HList(arr=arr0, n=z3.IntVal(0), k="obj"))
             f = st.alloc(HObj(_FileWL, fields={"content": cont}))
             st.ghost["file"] = f
+            st.ghost["file_arr0"] = arr0
+            if c.e_term is not None:
+                st.assume(FILE_TEXT(arr0, z3.IntVal(0), c.e_term) == EMPTY)  # b"".decode(e) == ""
             st.trace.append(Event("call", "open", args, kwargs, f, lineno=getattr(node, "lineno", None)))
             out.append((st, f))
             return out
@@ -1632,6 +1686,8 @@ class Dump(C10VC):
             f, x = args
             out = [fail(st, "write", args, node)]
             h = c.content(st, f)
+            if c.e_term is not None:
+                st.assume(codec_facts_append(h.arr, h.n, to_term(x, "obj"), c.e_term))
             h.arr = z3.Store(h.arr, h.n, to_term(x, "obj"))
             h.n = h.n + 1
             A.call_event(st, "write", args, kwargs, None, node)
@@ -1649,6 +1705,15 @@ class Dump(C10VC):
             j = z3.Int(fresh_name("j"))
             st.assume(z3.ForAll([j], z3.Implies(z3.And(0 <= j, j < h.n), z3.Select(na, j) == z3.Select(h.arr, j))))
             st.assume(z3.ForAll([j], z3.Implies(z3.And(0 <= j, j < seqv.n), z3.Select(na, h.n + j) == seq_obj(seqv, j))))
+            if c.e_term is not None:
+                # writelines(it) == for x in it: write(x); for the encoded pieces of S under a stateless codec the
+                # decoded file grows by what the whole text round-trips to (the loop form of this is proved by
+                # invariant in the [nowl] variants from the two homomorphism facts)
+                S = c.S
+                enc_items = z3.ForAll([j], z3.Implies(z3.And(0 <= j, j < seqv.n), seq_obj(seqv, j) == ENC(z3.Select(S.arr, j), c.e_term, c.r_term)))
+                st.assume(z3.Implies(z3.And(enc_items, seqv.n == S.n, STATELESS(c.e_term)),
+                                     FILE_TEXT(na, h.n + seqv.n, c.e_term)
+                                     == z3.Concat(FILE_TEXT(h.arr, h.n, c.e_term), RT(JOIN(S.arr, S.n), c.e_term, c.r_term))))
             h.arr, h.n = na, h.n + seqv.n
             A.call_event(st, "writelines", args, kwargs, None, node)
             return [(s1, r1), (st, None)]
@@ -1680,11 +1745,21 @@ class Dump(C10VC):
             h = c.content(st, f)
             h0 = c.content(ctx.entry, f)
             j = z3.Int(fresh_name("wj"))
-            return [
+            out = [
                 h.n == h0.n + ctx.k,
                 z3.ForAll([j], z3.Implies(z3.And(0 <= j, j < h0.n), z3.Select(h.arr, j) == z3.Select(h0.arr, j))),
                 z3.ForAll([j], z3.Implies(z3.And(0 <= j, j < ctx.k), z3.Select(h.arr, h0.n + j) == seq_obj(ctx.seq, j))),
             ]
+            if c.e_term is not None:
+                S, e, r = c.S, c.e_term, c.r_term
+                # instances (at the indices around k) of the definition of JOIN and of the codec homomorphism fact
+                for idx in (ctx.k - 1, ctx.k):
+                    st.assume(z3.Implies(idx >= 0, z3.And(*join_step(S.arr, idx))),
+                              z3.Implies(idx >= 0, codec_facts_text(JOIN(S.arr, idx), z3.Select(S.arr, idx), e, r)))
+                # under a stateless codec the file decodes to its prior text + what the text so far round-trips to
+                out.append(z3.Implies(STATELESS(e), FILE_TEXT(h.arr, h.n, e)
+                                      == z3.Concat(FILE_TEXT(h0.arr, h0.n, e), RT(JOIN(S.arr, ctx.k), e, r))))
+            return out
 
         def heap(st, local):
             h = c.content(st, st.ghost["file"])
@@ -1702,6 +1777,21 @@ class Dump(C10VC):
         for v in (self.errors, self.encoding):
             if v is not None:
                 st.assume(str2obj(v.t) != host_const(None))
+        # the codec the file is to be read back with, and the error mode (None: text-mode target)
+        self.r_term = str2obj(self.errors.t)
+        if self.with_encoding:
+            self.e_term = str2obj(self.encoding.t)
+        elif self.kind == "path":
+            self.e_term = str2obj(z3.StringVal("utf-8"))
+            st.assume(STATELESS(self.e_term))  # codec table: utf-8 has neither BOM nor shift state
+        else:
+            self.e_term = None
+        if self.e_term is not None:
+            whole = JOIN(self.S.arr, self.S.n)
+            st.assume(*join_base(self.S.arr))
+            st.assume(z3.Implies(STATELESS(self.e_term), RT(EMPTY, self.e_term, self.r_term) == EMPTY))
+            # a strict encode that succeeds is lossless
+            st.assume(z3.Implies(self.errors.t == z3.StringVal("strict"), RT(whole, self.e_term, self.r_term) == whole))
         if self.kind == "path":
             self.fp = sym("path", "str")
             self.file0 = None
@@ -1743,32 +1833,56 @@ class Dump(C10VC):
         names = [e.name for e in out.st.trace if e.kind == "call" and e.name in ("write", "writelines", "close")]
         return names[-1] == "close"
 
-    def p_content(self, pre, out):
-        """on return the file holds what it held before followed by the (encoded) items, in order"""
-        if out.raised:
-            return None
+    def _target(self, out):
         if self.kind == "path":
             op = self.opened(out)
             if len(op) != 1:
-                return False
-            f, n0, arr0 = op[0], z3.IntVal(0), None
-        else:
-            f, n0, arr0 = self.fp, self.c0_n, self.c0_arr
+                return None
+            return op[0], z3.IntVal(0), out.st.ghost["file_arr0"]
+        return self.fp, self.c0_n, self.c0_arr
+
+    def p_content(self, pre, out):
+        """text-mode target: on return the file holds what it held before followed by the items, in order.
+        binary target: what it held before is untouched"""
+        if out.raised:
+            return None
+        tg = self._target(out)
+        if tg is None:
+            return False
+        f, n0, arr0 = tg
         h = self.content(out.st, f)
-        if self.with_encoding:
-            enc = str2obj(self.encoding.t)
-        elif self.kind == "path":
-            enc = str2obj(z3.StringVal("utf-8"))
-        else:
-            enc = None
         j = z3.Int(fresh_name("pj"))
-        x = z3.Select(self.S.arr, j)
-        want = ENC(x, enc, str2obj(self.errors.t)) if enc is not None else str2obj(x)
-        fs = [h.n == n0 + self.S.n,
-              z3.ForAll([j], z3.Implies(z3.And(0 <= j, j < self.S.n), z3.Select(h.arr, n0 + j) == want))]
-        if arr0 is not None:
-            fs.append(z3.ForAll([j], z3.Implies(z3.And(0 <= j, j < n0), z3.Select(h.arr, j) == z3.Select(arr0, j))))
+        fs = [z3.ForAll([j], z3.Implies(z3.And(0 <= j, j < n0), z3.Select(h.arr, j) == z3.Select(arr0, j))), h.n >= n0]
+        if self.e_term is None:
+            fs += [h.n == n0 + self.S.n,
+                   z3.ForAll([j], z3.Implies(z3.And(0 <= j, j < self.S.n), z3.Select(h.arr, n0 + j) == str2obj(z3.Select(self.S.arr, j))))]
         return z3.And(*fs)
+
+    def _text_goal(self, out):
+        tg = self._target(out)
+        if tg is None:
+            return False
+        f, n0, arr0 = tg
+        h = self.content(out.st, f)
+        e, r = self.e_term, self.r_term
+        T, P = FILE_TEXT(h.arr, h.n, e), FILE_TEXT(arr0, n0, e)
+        whole = JOIN(self.S.arr, self.S.n)
+        return z3.And(T == z3.Concat(P, RT(whole, e, r)),
+                      z3.Implies(self.errors.t == z3.StringVal("strict"), T == z3.Concat(P, whole)))
+
+    def p_text(self, pre, out):
+        """THE STATEMENT: the dumped file, decoded with the encoding, is its prior text followed by the
+        concatenation of the pieces (for a lossy error mode: by what encoding the whole text keeps of it)"""
+        if out.raised or self.e_term is None:
+            return None
+        return self._text_goal(out)
+
+    def p_text_stateless(self, pre, out):
+        """... proved for every codec without BOM / shift state (utf-8, latin-1, ascii, utf-16-le, ...)"""
+        if out.raised or self.e_term is None:
+            return None
+        g = self._text_goal(out)
+        return g if g is False else z3.Implies(STATELESS(self.e_term), g)
 
     def p_exceptions(self, pre, out):
         """dump adds no failure of its own"""
@@ -1776,7 +1890,8 @@ class Dump(C10VC):
             return True
         return out.value.tag in ("open", "write", "writelines", "encode")
 
-    posts = [("open", p_open), ("close", p_close), ("content", p_content), ("exceptions", p_exceptions)]
+    posts = [("open", p_open), ("close", p_close), ("content", p_content), ("text", p_text),
+             ("text_stateless_codec", p_text_stateless), ("exceptions", p_exceptions)]
 
 
 DUMPS = [Dump(k, e) for k in ("path", "wl", "nowl") for e in (False, True)]
@@ -1949,7 +2064,81 @@ def bounded_e2e(task, tier, seed):
     return rs
 
 
+DUMP_CODECS = [("utf-8", "strict"), ("latin-1", "replace"), ("ascii", "replace"), ("ascii", "ignore"),
+               ("ascii", "xmlcharrefreplace"), ("ascii", "backslashreplace"), ("utf-16-le", "strict"),
+               ("utf-16", "strict"), ("utf-32", "strict"), ("utf-8-sig", "strict")]
+DUMP_PIECES = [[], [""], ["a"], ["a", "b"], ["é", "", "日本", "x"], ["", "p", "", "q", "r", ""], ["<", "é€", ">", "1", "2", "3", "4"]]
+
+
+def dump_codec_case(enc, errors, pieces, size, target):
+    """-> None | description: decode(dumped bytes) == what the codec/error mode keeps of the whole text"""
+    text = "".join(pieces)
+    want = text.encode(enc, errors).decode(enc)
+    s = E.TemplateStream(iter(list(pieces)))
+    if size:
+        s.enable_buffering(size)
+    if target == "path":
+        d = tempfile.mkdtemp(prefix="c10enc")
+        try:
+            path = os.path.join(d, "o")
+            s.dump(path, enc, errors)
+            data = open(path, "rb").read()
+        finally:
+            import shutil
+            shutil.rmtree(d, ignore_errors=True)
+    else:
+        f = _FileWL() if target == "wl" else _FileNoWL()
+        s.dump(f, enc, errors)
+        data = b"".join(f.items[1:])
+    try:
+        got = data.decode(enc)
+    except UnicodeError as ex:
+        return f"the dumped bytes {data!r} do not decode as {enc}: {ex}"
+    if got != want:
+        return f"dump({target}, {enc!r}, {errors!r}) of pieces {pieces!r} (buffer {size}) decodes to {got!r}, the rendered text is {want!r}"
+    return None
+
+
+def bounded_dump_codecs(task, tier, seed):
+    """the statement for encoded dump targets on the real code, per codec"""
+    t0 = time.time()
+    rs = []
+    cases = 0
+    for enc, errors in DUMP_CODECS:
+        bad = None
+        for pieces in DUMP_PIECES:
+            for size in (None, 2, 3):
+                for target in ("path", "wl", "nowl"):
+                    cases += 1
+                    try:
+                        d = dump_codec_case(enc, errors, pieces, size, target)
+                    except Exception as ex:  # noqa
+                        d = f"crash {ex!r}"
+                    if d and bad is None:
+                        bad = ({"entry": "dump_codec", "encoding": enc, "errors": errors, "pieces": pieces, "size": size, "target": target}, d)
+        nm = f"C10.bounded.dump_codecs[{enc},{errors}]"
+        if bad:
+            rs.append(Res(nm, "refuted", "native", time.time() - t0, bad[1], "bounded", bad[0]))
+        else:
+            rs.append(Res(nm, "bounded-ok", "native", time.time() - t0, f"{len(DUMP_PIECES)} piece lists x unbuffered/2/3 x path/file objects", "bounded"))
+    task.bound_text = (f"codecs {[c for c, _ in DUMP_CODECS]} (ascii with 4 error modes), {len(DUMP_PIECES)} piece lists, "
+                       "unbuffered and buffer sizes 2, 3, path and both file-object targets")
+    task.stats = {"cases": cases}
+    return rs
+
+
+def dump_codec_key(res):
+    """known findings are keyed by the codec"""
+    return str((res.witness or {}).get("encoding"))
+
+
 def replay_bounded(w):
+    if w.get("entry") == "dump_codec":
+        try:
+            d = dump_codec_case(w["encoding"], w["errors"], w["pieces"], w["size"], w["target"])
+        except Exception as ex:  # noqa
+            d = f"crash {ex!r}"
+        return d is not None, d or "the dumped file decodes to the rendered text"
     if w.get("entry") == "e2e":
         try:
             d = e2e_case(w["template"], E2E_DATA[w["data"]], tuple(range(2, 9)))
@@ -1978,8 +2167,10 @@ TASKS = (
     + [FnTask("C10", "C10.tables.concat_is_join", table_concat, "table", replay_table),
        FnTask("C10", "C10.spec.join_facts", join_facts_crosscheck, "bounded", replay_bounded),
        FnTask("C10", "C10.bounded.buffered", bounded_buffered, "bounded", replay_bounded),
-       FnTask("C10", "C10.bounded.entrypoints", bounded_e2e, "bounded", replay_bounded)]
+       FnTask("C10", "C10.bounded.entrypoints", bounded_e2e, "bounded", replay_bounded),
+       FnTask("C10", "C10.bounded.dump_codecs", bounded_dump_codecs, "bounded", replay_bounded)]
 )
+TASKS[-1].finding_key = dump_codec_key
 
 META = {
     "level": "proof",
@@ -1993,15 +2184,20 @@ META = {
         "yield recorded in a ghost chunk table) is proved with loop invariants for every input sequence, every size >= 1: the chunks are "
         "contiguous segments starting at 0, each the join of its segment, all but the last with exactly `size` non-empty pieces, the last "
         "with 1..size, the uncovered tail consists of empty strings, and the concatenation of the chunks is the concatenation of the "
-        "input. dump is proved (loop invariant on the write loop) to write the (encoded) items in order after the prior content and to "
-        "close exactly the file it opened on every path. Paper lemma: when R is a function of the context (C29/C30) all five texts equal "
+        "input. dump: for text-mode targets the items are written in order after the prior content; for binary targets the "
+        "postcondition is about the DECODED file: it decodes to its prior text followed by the concatenation of the pieces (for a lossy "
+        "error mode, by what encoding the whole text keeps of it). This is proved (loop invariant on the write loop) for every codec "
+        "without BOM/shift state and for the utf-8 default of path targets; for an arbitrary codec it is REFUTED on the unchanged tree "
+        "(known finding: each piece is encoded separately, so utf-16/utf-32/utf-8-sig emit one BOM per piece; replayed natively, "
+        "proposed_fixes/c10_dump_incremental_encoder.diff). dump closes exactly the file it opened on every path. Paper lemma: when R is a function of the context (C29/C30) all five texts equal "
         "JOIN(R(ctx0)). Partial correctness only (termination of the buffering loop is not an obligation; the bounded stand-in runs the "
         "real generator). Bounded stand-ins on the real code are reported separately."),
     "assumptions": [
         "A7: generators are modelled by the sequence they yield; an exception of the render function surfaces where the consumer drives it",
         "call shapes of render/generate/stream: 0..1 positional and 0..2 keyword arguments with symbolic values (the code passes *args/**kwargs through verbatim)",
         "the Context returned by new_context belongs to the environment passed to it (contract of runtime.new_context / Context.__init__)",
-        "file model of dump: write appends, writelines appends in order, both may raise OSError; open gives a new empty file with writelines or raises OSError; str.encode is an uninterpreted function that may raise UnicodeError (raised eagerly in the model)",
+        "file model of dump: write appends, writelines appends in order (writelines(it) == for x in it: write(x)), both may raise OSError; open gives a new empty file with writelines or raises OSError; str.encode is an uninterpreted function that may raise UnicodeError (raised eagerly in the model)",
+        "codec dependency spec: for a stateless codec (no BOM, no shift state; utf-8 is one) decoding distributes over the concatenation of encoded items and x.encode(e, r).decode(e) distributes over string concatenation; a strict encode that succeeds is lossless. No such fact is assumed for other codecs.",
         "generate()/render() in async mode belong to C09.entry (render's delegation to asyncio.run(render_async(...)) is checked here; generate is checked in sync mode)",
         "partial correctness: termination is not proved",
     ],
